@@ -707,6 +707,26 @@ func mainSliceSpec() {
 			samples = append(samples, "wide-alphabet int slice "+fmt.Sprint(fams[2]))
 		}
 	}
+	// extreme values: the whole int range (differences and sums of two elements overflow), and
+	// strings that differ in length, case, prefix, multi-byte characters
+	{
+		const maxI, minI = int(^uint(0) >> 1), -int(^uint(0)>>1) - 1
+		ext := []int{minI, -(maxI/2 + 10), -1, 0, 1, maxI/2 + 10, maxI}
+		enumerate(ext, 3, func(s []int) {
+			nSlices++
+			checkAll(c, fi, s, smallI[:3])
+		})
+		for _, s := range [][]int{{maxI, -1, 0, minI, 1}, {maxI/2 + 10, 3, -(maxI/2 + 10), -3, 0}, {1, minI, maxI, minI, -1, maxI}} {
+			nSlices++
+			checkAll(c, fi, s, smallI[:3])
+		}
+		exts := []string{"", "a", "A", "aa", "ab", "b", "é", "日本", "a\x00", "\xff"}
+		enumerate(exts, 2, func(s []string) {
+			nSlices++
+			checkAll(c, fs, s, smallS[:3])
+		})
+		samples = append(samples, "extreme int slice "+fmt.Sprint([]int{maxI, -1, 0, minI, 1}))
+	}
 	for n := 1; n <= 14; n++ {
 		base := make([]string, n)
 		for i := range base {
